@@ -3,10 +3,12 @@ open Dashu.Props.C12
 #print axioms gcd_prim_spec
 #print axioms gcd_spec
 #print axioms gcd_ext_prim_spec
+#print axioms gcd_ext_prim_wide_spec
 #print axioms gcd_ext_bezout
 #print axioms gcd_ext_bezout_driver
 #print axioms lehmer_guess_det
 #print axioms lehmer_step_preserves_gcd
+#print axioms lehmer_gcd_sound
 #print axioms sqrt_rem_spec
 #print axioms nth_root_spec
 #print axioms cbrt_rem_spec
